@@ -206,6 +206,9 @@ def generate(rng, tier="quick"):
     ops = []
     evals = []
     for _ in range(rng.randint(1, 40 if tier == "thorough" else 24)):
+        if rng.chance(0.004):
+            # a long-lived interpreter: the stack holds what N earlier evaluations of "1" left on it
+            ops.append({"op": "age", "evaluations": rng.pick((2**10, 2**12, 2**16, 2**20)) - rng.randint(0, 12)})
         kind = rng.weighted([("eval", 10), ("reject", 5), ("repeat", 2), ("restat", 2), ("validate", 3), ("revalidate", 1.5), ("create", 2.0)])
         if kind == "eval":
             ast = gen_ast(rng, rng.randint(0, 4))
@@ -247,7 +250,7 @@ def generate(rng, tier="quick"):
                 if c:
                     c["uid"] = len(ops)
                     ops.append(c)
-    return {"format": 1, "property": PROP, "env": wl.gen_env(rng), "grids": grids, "ops": ops}
+    return {"format": 1, "property": PROP, "env": wl.gen_env(rng), "grids": grids, "ops": ops, "multi_dataset": len(grids) > 1 and rng.chance(0.5)}
 
 
 # --------------------------------------------------------------------------
@@ -256,11 +259,11 @@ def generate(rng, tier="quick"):
 _GRID_FILES = {}
 
 
-def grid_file(grid):
+def grid_file(grid, varname="temp"):
     import pandas as pd
     import xarray as xr
 
-    key = digest(grid)
+    key = digest([grid, varname])
     path = _GRID_FILES.get(key)
     if path and os.path.exists(path):
         return path
@@ -272,10 +275,10 @@ def grid_file(grid):
         lv = np.stack([f + 100.0 * k for k in range(grid["levels"])])
         data = np.broadcast_to(lv, (12,) + lv.shape).copy()
         coords["depth"] = np.arange(grid["levels"], dtype="float64") * 10
-        ds = xr.Dataset({"temp": (("time", "depth", "lat", "lon"), data)}, coords=coords)
+        ds = xr.Dataset({varname: (("time", "depth", "lat", "lon"), data)}, coords=coords)
     else:
         data = np.broadcast_to(f, (12,) + f.shape).copy()
-        ds = xr.Dataset({"temp": (("time", "lat", "lon"), data)}, coords=coords)
+        ds = xr.Dataset({varname: (("time", "lat", "lon"), data)}, coords=coords)
     path = os.path.join(seams.scratch_dir(), f"clim-{key}.nc")
     ds.to_netcdf(path, engine="scipy", format="NETCDF3_64BIT")
     _GRID_FILES[key] = path
@@ -341,6 +344,14 @@ def execute(scn):
         stats["ops"] += 1
         kind = op["op"]
         before = len(fx_parser.exprStack)
+        if kind == "age":
+            # history compression: evaluating the expression "1" pushes exactly one token "1" and returns 1.0;
+            # N such evaluations leave N tokens behind. Push them directly instead of parsing N times.
+            fx_parser.exprStack.extend(["1"] * max(0, op["evaluations"] - len(fx_parser.exprStack)))
+            bump("aged_interpreter")
+            rejected_before = True
+            events.append(("OP", kind, len(fx_parser.exprStack)))
+            continue
         if kind == "eval":
             try:
                 want = model_eval(op["ast"], op["stats"])
@@ -412,14 +423,26 @@ def execute(scn):
         elif kind == "create":
             grid = scn["grids"][op["grid"]]
             try:
-                if op["grid"] not in creators:
-                    path = grid_file(grid)
-                    dsd = {"name": "clim", "file_path": path, "variables": {"temperature": "temp"}}
-                    if grid.get("levels"):
-                        dsd["3d"] = "depth"
-                        bump("climatology_3d")
-                    creators[op["grid"]] = QcConfigCreator(CreatorConfig(via_file({"datasets": [dsd]}, op.get("via", "dict"), f"creator{op['grid']}")))
-                qc = creators[op["grid"]]
+                multi = scn.get("multi_dataset") and len(scn["grids"]) > 1
+                ckey = "all" if multi else op["grid"]
+                if ckey not in creators:
+                    dsds = []
+                    for gi, g in enumerate(scn["grids"]):
+                        if not multi and gi != op["grid"]:
+                            continue
+                        # one creator over several climatologies: the QC name of a later data set's variable may
+                        # well be spelled like the in-file name of an earlier one (q0 -> q1, q1 -> q2, ...)
+                        qc_name, in_file = (f"q{gi}", f"q{gi + 1}") if multi else ("temperature", "temp")
+                        dsd = {"name": f"clim{gi}", "file_path": grid_file(g, in_file), "variables": {qc_name: in_file}}
+                        if g.get("levels"):
+                            dsd["3d"] = "depth"
+                            bump("climatology_3d")
+                        dsds.append(dsd)
+                    if multi:
+                        bump("creator_over_several_datasets")
+                    creators[ckey] = QcConfigCreator(CreatorConfig(via_file({"datasets": dsds}, op.get("via", "dict"), f"creator{ckey}")))
+                qc = creators[ckey]
+                qc_var = f"q{op['grid']}" if multi else "temperature"
                 y, m, d = op["start"]
                 start = datetime.date(y, m, d)
                 end = start + datetime.timedelta(days=op["days"])
@@ -428,9 +451,12 @@ def execute(scn):
                     vc = vcs[op["vc_from"]]
                     bump("variable_config_reused")
                 else:
-                    vc = QcVariableConfig(via_file({"variable": "temperature", "bbox": list(op["bbox"]), "start_time": start.isoformat(), "end_time": end.isoformat(), "tests": tests}, op.get("via", "dict"), f"var{i}"))
+                    vc = QcVariableConfig(via_file({"variable": qc_var, "bbox": list(op["bbox"]), "start_time": start.isoformat(), "end_time": end.isoformat(), "tests": tests}, op.get("via", "dict"), f"var{i}"))
                 vcs[op.get("uid", i)] = vc
-                out = qc.create_config(vc)["temperature"]["qartod"]
+                if multi and vc.get("variable") != qc_var:
+                    vc = QcVariableConfig(dict(vc, variable=qc_var))  # a reused variable config names the variable of this data set
+                    vcs[op.get("uid", i)] = vc
+                out = qc.create_config(vc)[qc_var]["qartod"]
             except ZeroDivisionError:
                 results.append("zero-division")
                 bump("create_zero_division")
